@@ -37,6 +37,18 @@ def gen_case(rng):
     c = {"what": what, "a": sp, "k": k, "by_pos": rng.random() < 0.5}
     if what == 'cumprod':
         sp["values"] = (sp["values"] % 5 + 1).astype(sp["values"].dtype)
+    if what in ('cumsum', 'cumprod', 'cumdefault', 'diff') and rng.random() < 0.25:
+        # narrow and boolean data: NumPy accumulates small integers and booleans in the platform integer
+        nt = rng.choice(['int8', 'int16', 'int32', 'uint8', 'bool', 'float32'])
+        vv = sp["values"]
+        if what == 'diff':
+            # differences that stay inside int8 (|third difference| <= 8 * 15): where NumPy would wrap around, "NumPy's n-th
+            # difference" and the NaN-padded float computation of keepaxis legitimately disagree; unsigned and bool excluded
+            nt = rng.choice(['int8', 'int16', 'int32', 'float32'])
+            sp["values"] = (vv % 16).astype(nt)
+        else:
+            sp["values"] = (vv % 2 == 0) if nt == 'bool' else (vv % 120).astype(nt)
+        c["narrow"] = nt
     if what == 'diff':
         c["n"] = rng.choice([1, 1, 2, 3])
         c["scheme"] = rng.choice(['backward', 'forward', 'centered'])
